@@ -279,21 +279,28 @@ def impl_regex_sub(rx, enc):
     return ('ok', source.sent, list(bytearray(d['r.sub.input'])) if 'r.sub.input' in d else [])
 
 
-def latin1_machines(report):
+def lowbyte_machines(report):
+    return latin1_machines(report, rxs=('[^\x01]+', '.[^\x01]', '\x01+', '(\x01a)*', 'a[^\x01]*\x01', '[\x00\x01\x02][\x01\x02]', '[^\x00]\x00?', '\x02*\x01', '.\x00|\x01'),
+                           alpha='\x00\x01\x02a', enc=None, what='the default encoder, over the byte values 0, 1, 2')
+
+
+def latin1_machines(report, rxs=None, alpha=None, enc=0, what=None):
     """Bytes machines given an encoder of their own (ISO-8859-1, the encoding of tag names): the language over the bytes THAT encoder
     produces, judged by the reference derivative semantics over characters (one character = one byte here).  -> runs"""
     import cpppo
     from cpppo import automata as A, dotdict
-    enc = lambda s: s.encode('iso-8859-1')
+    custom = enc == 0
+    enc = (lambda s: s.encode('iso-8859-1')) if custom else (lambda s: s.encode('utf-8'))
+    what = what or 'an ISO-8859-1 encoder'
     n = 0
-    for rx in ('\xe9+', 'a*\xe9', 'a+b', '(a\xe9)*a', '\xff+a', '[^\xe9]+\xe9?', '\xe9\xb5*', 'a|\xe9\xe9'):
+    for rx in (rxs or ('\xe9+', 'a*\xe9', 'a+b', '(a\xe9)*a', '\xff+a', '[^\xe9]+\xe9?', '\xe9\xb5*', 'a|\xe9\xe9')):
         try:
-            m = A.regex_bytes(initial=rx, context='r', terminal=True, regex_encoder=enc)
+            m = A.regex_bytes(initial=rx, context='r', terminal=True, **({'regex_encoder': enc} if custom else {}))
         except Exception as e:
-            report(dict(regex=rx, regex_encoder='iso-8859-1'), 'a bytes machine with an ISO-8859-1 encoder cannot be built: %s' % type(e).__name__); continue
+            report(dict(regex=rx, machine=what), 'a bytes machine with %s cannot be built: %s' % (what, type(e).__name__)); continue
         r = parse_re(rx)
         cr = core_re(r)
-        inputs = [s for s in strings('a\xe9\xffb\xb5', 3)]
+        inputs = [s for s in strings(alpha or 'a\xe9\xffb\xb5', 3)]
         outs = core.run_model('regex', [cr + [len(s)] + [ord(c) for c in s] for s in inputs])
         for s, o in zip(inputs, outs):
             n += 1
@@ -310,8 +317,8 @@ def latin1_machines(report):
                 io = ('other', type(e).__name__)
             mo = ('ok', o[1], list(enc(s[:o[1]]))) if o[0] == 1 else ('nonterminal',)
             if io != mo:
-                report(dict(regex=rx, regex_encoder='iso-8859-1', input=s, machine=repr(io), standard=repr(mo)),
-                       'a bytes machine given an ISO-8859-1 encoder does not accept the expression\'s language over the bytes that encoder produces')
+                report(dict(regex=rx, machine_with=what, input=s, machine=repr(io), standard=repr(mo)),
+                       'a bytes machine with %s does not accept the expression\'s language over the bytes that encoder produces' % what)
                 break
     return n
 
@@ -452,6 +459,7 @@ def run(ctx):
             ctx.violation(dict(regex=rx, input=s, mode='bytes', machine=repr(whole), standard_semantics=repr(mo)),
                           'bytes regex machine does not consume/accept the longest viable prefix of the input')
     ctx.coverage['runs_of_machines_with_an_iso_8859_1_encoder'] = latin1_machines(lambda w, what: chunk_bad.append((w, what)))
+    ctx.coverage['runs_of_bytes_machines_over_low_byte_values'] = lowbyte_machines(lambda w, what: chunk_bad.append((w, what)))
     for w, what in chunk_bad[:3]:
         nbad += 1
         ctx.violation(w, what)
